@@ -66,6 +66,7 @@ def InG (inst : Option String) : AVal → Val → Prop
   | .int lo hi, v => ∃ n : Nat, v = .int n ∧ lo ≤ n ∧ ∀ h, hi = some h → n < h
   | .inst, v => v = (match inst with | some i => .str i | none => .none)
   | .items a, v => ∀ xs, Val.iterItems v = .ok xs → ∀ x ∈ xs, InG inst a x
+  | .intOneOf ns, v => ∃ n ∈ ns, v = .int n
 
 /-- the environments an abstract environment stands for -/
 def GEnv (inst : Option String) (Γ : AEnv) (ρ : Env) : Prop :=
@@ -247,23 +248,99 @@ theorem inG_choices {a : AVal} {ss : List String} (hc : a.strChoices = some ss) 
 theorem inG_oneOf {ss : List String} {s : String} (h : s ∈ ss) : InG inst (.str [.oneOf ss]) (.str s) :=
   ⟨s, rfl, matches_single h⟩
 
+theorem foldl_min_le (u : List Nat) : ∀ (init : Nat) {n : Nat}, n ∈ u → u.foldl min init ≤ n := by
+  induction u with
+  | nil => intro _ _ h; cases h
+  | cons a as ih =>
+    intro init n hn
+    simp only [List.foldl_cons]
+    rcases List.mem_cons.1 hn with rfl | hm
+    · -- the accumulator only decreases
+      have hacc : ∀ (l : List Nat) (i : Nat), l.foldl min i ≤ i := by
+        intro l
+        induction l with
+        | nil => intro i; exact Nat.le_refl _
+        | cons b bs ihb => intro i; exact Nat.le_trans (ihb (min i b)) (Nat.min_le_left _ _)
+      exact Nat.le_trans (hacc as (min init n)) (Nat.min_le_right _ _)
+    · exact ih _ hm
+
+theorem le_foldl_max (u : List Nat) : ∀ (init : Nat) {n : Nat}, n ∈ u → n ≤ u.foldl max init := by
+  induction u with
+  | nil => intro _ _ h; cases h
+  | cons a as ih =>
+    intro init n hn
+    simp only [List.foldl_cons]
+    rcases List.mem_cons.1 hn with rfl | hm
+    · have hacc : ∀ (l : List Nat) (i : Nat), i ≤ l.foldl max i := by
+        intro l
+        induction l with
+        | nil => intro i; exact Nat.le_refl _
+        | cons b bs ihb => intro i; exact Nat.le_trans (Nat.le_max_left _ _) (ihb (max i b))
+      exact Nat.le_trans (Nat.le_max_right _ _) (hacc as (max init n))
+    · exact ih _ hm
+
+theorem inG_natHull {u : List Nat} {n : Nat} (hn : n ∈ u) : InG inst (natHull u) (.int n) := by
+  refine ⟨n, rfl, foldl_min_le u _ hn, ?_⟩
+  intro h hh
+  simp only [Option.some.injEq] at hh
+  have := le_foldl_max u 0 hn
+  omega
+
+theorem inG_joinNats {x y : List Nat} {n : Nat} (hn : n ∈ natUnion x y) :
+    InG inst (joinNats x y) (.int n) := by
+  unfold joinNats
+  simp only
+  split
+  · exact inG_natHull hn
+  · split
+    · exact ⟨n, hn, rfl⟩
+    · exact inG_natHull hn
+
+theorem mem_natUnion_left {x y : List Nat} {n : Nat} (h : n ∈ x) : n ∈ natUnion x y :=
+  List.mem_append_left _ h
+
+theorem mem_natUnion_right {x y : List Nat} {n : Nat} (h : n ∈ y) : n ∈ natUnion x y := by
+  unfold natUnion
+  by_cases hx : n ∈ x
+  · exact List.mem_append_left _ hx
+  · exact List.mem_append_right _ (List.mem_filter.2 ⟨h, by simpa using hx⟩)
+
+theorem inG_natChoices {a : AVal} {x : List Nat} (hc : a.natChoices = some x) {v : Val}
+    (h : InG inst a v) : ∃ n ∈ x, v = .int n := by
+  unfold AVal.natChoices at hc
+  split at hc
+  · rename_i lo hi
+    simp only [Option.some.injEq] at hc
+    subst hc
+    obtain ⟨n, rfl, hlo, hhi⟩ := h
+    have := hhi hi rfl
+    exact ⟨n, List.mem_range'_1.2 ⟨hlo, by omega⟩, rfl⟩
+  · simp only [Option.some.injEq] at hc
+    subst hc
+    exact h
+  · simp at hc
+
 theorem inG_join_left {a b : AVal} {v : Val} (h : InG inst a v) : InG inst (a.join b) v := by
   unfold AVal.join
   by_cases hab : a = b
   · rw [if_pos hab]; exact h
   · rw [if_neg hab]
     split
-    · rename_i l1 h1 l2 h2
-      obtain ⟨n, rfl, hlo, hhi⟩ := h
-      refine ⟨n, rfl, Nat.le_trans (Nat.min_le_left _ _) hlo, ?_⟩
-      intro hh hEq
-      obtain ⟨a1, a2, rfl, rfl, rfl⟩ := optMax_some hEq
-      exact Nat.lt_of_lt_of_le (hhi a1 rfl) (Nat.le_max_left _ _)
+    · rename_i x y hx hy
+      obtain ⟨n, hn, rfl⟩ := inG_natChoices hx h
+      exact inG_joinNats (mem_natUnion_left hn)
     · split
-      · rename_i x y hx hy
-        obtain ⟨s, hs, rfl⟩ := inG_choices hx h
-        exact inG_oneOf (List.mem_append_left _ hs)
-      · trivial
+      · rename_i l1 h1 l2 h2
+        obtain ⟨n, rfl, hlo, hhi⟩ := h
+        refine ⟨n, rfl, Nat.le_trans (Nat.min_le_left _ _) hlo, ?_⟩
+        intro hh hEq
+        obtain ⟨a1, a2, rfl, rfl, rfl⟩ := optMax_some hEq
+        exact Nat.lt_of_lt_of_le (hhi a1 rfl) (Nat.le_max_left _ _)
+      · split
+        · rename_i x y hx hy
+          obtain ⟨s, hs, rfl⟩ := inG_choices hx h
+          exact inG_oneOf (List.mem_append_left _ hs)
+        · trivial
 
 theorem inG_join_right {a b : AVal} {v : Val} (h : InG inst b v) : InG inst (a.join b) v := by
   unfold AVal.join
@@ -271,17 +348,21 @@ theorem inG_join_right {a b : AVal} {v : Val} (h : InG inst b v) : InG inst (a.j
   · rw [if_pos hab]; subst hab; exact h
   · rw [if_neg hab]
     split
-    · rename_i l1 h1 l2 h2
-      obtain ⟨n, rfl, hlo, hhi⟩ := h
-      refine ⟨n, rfl, Nat.le_trans (Nat.min_le_right _ _) hlo, ?_⟩
-      intro hh hEq
-      obtain ⟨a1, a2, rfl, rfl, rfl⟩ := optMax_some hEq
-      exact Nat.lt_of_lt_of_le (hhi a2 rfl) (Nat.le_max_right _ _)
+    · rename_i x y hx hy
+      obtain ⟨n, hn, rfl⟩ := inG_natChoices hy h
+      exact inG_joinNats (mem_natUnion_right hn)
     · split
-      · rename_i x y hx hy
-        obtain ⟨s, hs, rfl⟩ := inG_choices hy h
-        exact inG_oneOf (List.mem_append_right _ hs)
-      · trivial
+      · rename_i l1 h1 l2 h2
+        obtain ⟨n, rfl, hlo, hhi⟩ := h
+        refine ⟨n, rfl, Nat.le_trans (Nat.min_le_right _ _) hlo, ?_⟩
+        intro hh hEq
+        obtain ⟨a1, a2, rfl, rfl, rfl⟩ := optMax_some hEq
+        exact Nat.lt_of_lt_of_le (hhi a2 rfl) (Nat.le_max_right _ _)
+      · split
+        · rename_i x y hx hy
+          obtain ⟨s, hs, rfl⟩ := inG_choices hy h
+          exact inG_oneOf (List.mem_append_right _ hs)
+        · trivial
 
 theorem inG_joinAll {as : List AVal} {a : AVal} (ha : a ∈ as) {v : Val} (h : InG inst a v) :
     InG inst (AVal.joinAll as) v := by
@@ -379,6 +460,14 @@ theorem matches_pieces {a : AVal} {v : Val} (h : InG inst a v) {s : String}
       subst hs
       exact matches_single rfl
   | items a => exact matches_single trivial
+  | intOneOf ns =>
+    obtain ⟨n, hn, rfl⟩ := h
+    simp only [Val.pyStr, Except.ok.injEq] at hs
+    subst hs
+    refine matches_single ?_
+    show Val.intToStr (n : Int) ∈ ns.map fun k => toString k
+    have hstr : Val.intToStr (n : Int) = toString n := by simp [Val.intToStr]
+    exact List.mem_map.2 ⟨n, hn, hstr.symm⟩
 
 
 /-! ### f-strings, keys -/
